@@ -43,6 +43,10 @@ def gen_plain_einsum(rng, max_ranks=3, max_terms=2, max_factors=2, take_p=0.25, 
                 shape["rank0"] += 1
             strs.append(n + _idx(f))
         if is_take:
+            if rng.random() < 0.2:
+                # a scalar among the operands of take()
+                strs.insert(rng.randint(0, len(strs)), rng.choice(["a", "b"]))
+                shape["scalar"] += 1
             sel = rng.randrange(len(strs))
             terms.append("take(" + ", ".join(strs) + ", %d)" % sel)
             shape["take"] += 1
@@ -142,6 +146,10 @@ def gen_shape_stack(rng, rank, depth, sym_p=0.3, nway_p=0.35):
     dirs, syms = [], {}
     size = rng.randint(3, 7)
     for lvl in range(depth):
+        if dirs and rng.random() < 0.15:
+            # two adjacent levels written with the identical directive (same kind, same literal or symbolic size)
+            dirs.append(dirs[-1])
+            continue
         nway = rng.random() < nway_p
         val = rng.randint(1, 4) if nway else max(1, size)
         if rng.random() < sym_p:
@@ -293,7 +301,7 @@ def _aff_str(terms):
     return " + ".join(_term(c, v) for c, v in terms)
 
 
-def gen_affine_einsum(rng, neg_p=0.15, two_d_p=0.25, extra_p=0.25):
+def gen_affine_einsum(rng, neg_p=0.15, two_d_p=0.25, extra_p=0.25, same_p=0.1, sum_p=0.1):
     """O[q] = I[a*q + b*s] * F[s] and 2-D variants; returns dict with access coefficients."""
     a = rng.choice([1, 1, 1, 2, 2, 3])
     b = rng.choice([1, 1, 1, 2, 3])
@@ -314,11 +322,20 @@ def gen_affine_einsum(rng, neg_p=0.15, two_d_p=0.25, extra_p=0.25):
     else:
         decl = {"I": ["W"], "F": ["S"], "O": ["Q"]}
         expr = "O[q] = I[%s] * F[s]" % _aff_str(order)
-        if rng.random() < extra_p:
+        x = rng.random()
+        if x < extra_p:
             # a further operand holding Q or S directly (co-iterated with the projected tensor)
             r = rng.choice(["Q", "S"])
             decl = {"I": ["W"], "F": ["S"], "G": [r], "O": ["Q"]}
             expr += " * G[%s]" % r.lower()
+        elif x < extra_p + same_p:
+            # a second tensor read through the same affine expression (two projections meet in one intersection)
+            decl = {"I": ["W"], "J": ["W"], "F": ["S"], "O": ["Q"]}
+            expr = "O[q] = I[%s] * J[%s] * F[s]" % (_aff_str(order), _aff_str(order))
+        elif x < extra_p + same_p + sum_p:
+            # a sum of two convolutions: projections inside a union
+            decl = {"I": ["W"], "J": ["W"], "F": ["S"], "G": ["S"], "O": ["Q"]}
+            expr = "O[q] = I[%s] * F[s] + J[%s] * G[s]" % (_aff_str(order), _aff_str(order))
         out_ranks = ["Q"]
         ranks = ["Q", "S"]
     return {"decl": decl, "expr": expr, "out": "O", "ranks": ranks, "acc": acc, "a": a, "b": b,
